@@ -41,7 +41,7 @@ def reset_globals():
 
 def gen_idl(rng, n, kind=None, start=None):
     """configuration list of length n of a given kind; returns a range or a list"""
-    kinds = ['contig', 'strided', 'irregular', 'gapped']
+    kinds = ['contig', 'strided', 'irregular', 'gapped', 'deceptive']
     kind = kind or rng.choice(kinds)
     start = rng.randint(1, 50) if start is None else start
     if kind == 'contig':
@@ -55,6 +55,15 @@ def gen_idl(rng, n, kind=None, start=None):
         full = list(range(start, start + (n + max(2, n // 3)) * g, g))
         keep = sorted(rng.sample(range(len(full)), n))
         l = [full[i] for i in keep]
+        return l
+    if kind == 'deceptive':
+        # looks equally spaced from outside (first gap, end points, length) but one interior configuration
+        # is displaced: anything that infers a range from such summary information gets it wrong
+        st = rng.choice([2, 2, 3, 4])
+        l = [start + i * st for i in range(n)]
+        if n >= 4:
+            k = rng.randrange(2, n - 1)
+            l[k] += rng.choice([-1, 1])
         return l
     # irregular: random increasing with spacing multiple of g
     g = rng.choice([1, 1, 2, 5])
